@@ -238,8 +238,38 @@ def num_to_f64(x):
     return int_to_f64(x[3][0], 'i64') if x[2] == 'Integer' else x[3][0]
 
 
-def OKN_int(i): return OKP(lambda x: x[2] == 'Integer' and same_int(x[3][0], i), ('Integer', i))
-def OKN_float(f): return OKP(lambda x: x[2] == 'Float' and same_f64(x[3][0], f), ('Float', f))
+def lift(pred, fast=None):
+    """predicate on a Number with a concrete variant -> predicate on any Number value (symbolic variant included).
+    `fast(v)`: the same predicate on the value Number::from(v), stated through the contract of the conversion that C18
+    establishes (Integer(n) with n == v iff v is integral and in range, else Float(v)); used when the implementation's
+    result is literally `Number::from(v)` so that the conversion is not re-proved inside every query."""
+    def p(x):
+        if x[0] == 'sadt':
+            if fast is not None and len(x) > 4 and x[4].get('from') is not None: return fast(x[4]['from'])
+            fi = pred(adt(x[1], 'Integer', x[3]['Integer'])) if 'Integer' in x[3] else False
+            ff = pred(adt(x[1], 'Float', x[3]['Float'])) if 'Float' in x[3] else False
+            return z3.If(x[2] == NUMBER_VARIANTS.index('Integer'), as_z3(fi), as_z3(ff))
+        return pred(x)
+    return p
+
+
+def integral_in_range(v):
+    lo = fp_const(-9223372036854775808.0); hi = fp_const(9223372036854775808.0)
+    return z3.And(z3.Not(z3.fpIsNaN(v)), z3.Not(z3.fpIsInf(v)), z3.fpEQ(z3.fpRoundToIntegral(RTZ, v), v), z3.fpGEQ(v, lo), z3.fpLT(v, hi))
+
+
+def as_z3(b): return z3.BoolVal(b) if isinstance(b, bool) else b
+
+
+NUMBER_VARIANTS = ['Float', 'Integer']        # overwritten from the source tables by the harness (set_number_variants)
+
+
+def set_number_variants(vs):
+    NUMBER_VARIANTS[:] = vs
+
+
+def OKN_int(i): return OKP(lift(lambda x: x[2] == 'Integer' and same_int(x[3][0], i), lambda v: z3.And(integral_in_range(v), same_int(f64_to_int(v, 'i64'), i))), ('Integer', i))
+def OKN_float(f): return OKP(lift(lambda x: x[2] == 'Float' and same_f64(x[3][0], f), lambda v: z3.And(z3.Not(integral_in_range(v)), same_f64(v, f))), ('Float', f))
 
 
 def OKN_num(f):
@@ -247,7 +277,7 @@ def OKN_num(f):
     def pred(x):
         if x[2] == 'Float': return same_f64(x[3][0], f)
         return z3.fpEQ(int_to_f64(x[3][0], 'i64'), f)
-    return OKP(pred, ('numeric', f))
+    return OKP(lift(pred, lambda v: same_f64(v, f)), ('numeric', f))
 
 
 def number_from_f64_ref(v):
@@ -262,7 +292,7 @@ def number_from_f64_ref(v):
         n = x[3][0]
         # n equals v numerically: v is integral and in range, so v -> i64 is exact
         return same_int(n, f64_to_int(v, 'i64'))
-    return cases((integral, OKP(pi_exact, 'Integer(v)')), (z3.Not(integral), OKN_float(v)))
+    return cases((integral, OKP(lift(pi_exact), 'Integer(v)')), (z3.Not(integral), OKN_float(v)))
 
 
 def number_ref(kind, v):
@@ -270,7 +300,7 @@ def number_ref(kind, v):
     a = v[0] if v else None; b = v[1] if len(v) > 1 else None
     ai = a is not None and a[2] == 'Integer'; bi = b is not None and b[2] == 'Integer'
     if kind == 'Num':
-        return [(True, OKP(lambda x: x[2] == a[2] and (same_int(x[3][0], a[3][0]) if ai else same_f64(x[3][0], a[3][0])), a))]
+        return [(True, OKP(lift(lambda x: x[2] == a[2] and (same_int(x[3][0], a[3][0]) if ai else same_f64(x[3][0], a[3][0]))), a))]
     fa = num_to_f64(a) if a is not None else None; fb = num_to_f64(b) if b is not None else None
     if kind in ('Add', 'Subtract', 'Multiply'):
         op = {'Add': 'Add', 'Subtract': 'Sub', 'Multiply': 'Mul'}[kind]
@@ -293,7 +323,7 @@ def number_ref(kind, v):
             x, y = a[3][0], b[3][0]
             zero = i_cmp('Eq', y, 0, 'i64')
             ovf = b_and(i_cmp('Eq', x, I64_MIN, 'i64'), i_cmp('Eq', y, -1, 'i64'))
-            return first_match((zero, OKN_num(f_fmod(fa, fb))), (ovf, OKP(lambda r: num_is_zero(r), '0')), (True, OKN_int(i_rem(x, y, 'i64'))))
+            return first_match((zero, OKN_num(f_fmod(fa, fb))), (ovf, OKP(lift(lambda r: num_is_zero(r)), '0')), (True, OKN_int(i_rem(x, y, 'i64'))))
         return [(True, OKN_num(f_fmod(fa, fb)))]
     if kind == 'Negative':
         if ai:
@@ -308,11 +338,14 @@ def number_ref(kind, v):
         return [(True, OKN_num(z3.fpAbs(fa)))]
     if kind == 'Sign':
         if ai:
-            x = to_int(a[3][0])
-            return [(True, OKP(lambda r: num_value_is(r, ite(x > 0, 1, ite(x == 0, 0, -1))), 'sgn'))]
+            from ..summaries import ite_int
+            x = a[3][0]
+            one, zero, mone = (z3.BitVecVal(1, 64), z3.BitVecVal(0, 64), z3.BitVecVal(-1, 64)) if is_bv(x) else (1, 0, -1)
+            sg = ite_int(i_cmp('Gt', x, 0, 'i64'), one, ite_int(i_cmp('Eq', x, 0, 'i64'), zero, mone))
+            return [(True, OKN_int(sg))]
         zero = fp_const(0.0)
-        return first_match((z3.fpIsNaN(fa), ANY), (z3.fpGT(fa, zero), OKP(lambda r: num_value_is(r, 1), '1')),
-                           (z3.fpLT(fa, zero), OKP(lambda r: num_value_is(r, -1), '-1')), (True, OKP(lambda r: num_is_zero(r), '0')))
+        return first_match((z3.fpIsNaN(fa), ANY), (z3.fpGT(fa, zero), OKP(lift(lambda r: num_value_is(r, 1)), '1')),
+                           (z3.fpLT(fa, zero), OKP(lift(lambda r: num_value_is(r, -1)), '-1')), (True, OKP(lift(lambda r: num_is_zero(r)), '0')))
     if kind == 'Pow':
         if ai and bi:
             x, y = a[3][0], b[3][0]
@@ -334,7 +367,8 @@ def number_ref(kind, v):
         r = z3.fpRoundToIntegral(rm, fa)
         lo = fp_const(-9223372036854775808.0); hi = fp_const(9223372036854775808.0)
         inr = z3.And(z3.fpGEQ(r, lo), z3.fpLT(r, hi))
-        return cases((inr, OKP(lambda x: x[2] == 'Integer' and same_int(x[3][0], f64_to_int(r, 'i64')), ('Integer', r))),
+        return cases((inr, OKP(lift(lambda x: x[2] == 'Integer' and same_int(x[3][0], f64_to_int(r, 'i64')),
+                                    lambda v: z3.And(integral_in_range(v), same_int(f64_to_int(v, 'i64'), f64_to_int(r, 'i64')))), ('Integer', r))),
                      (z3.Not(inr), OKN_num(r)))
     if kind == 'Factorial':
         if ai:
